@@ -16,7 +16,7 @@ from fractions import Fraction as F
 import fw
 
 LEAN_PROPS = ["NmlVerif.Props.C13", "NmlVerif.Props.C13SP", "NmlVerif.Props.C13Hist", "NmlVerif.Props.C13Gen",
-              "NmlVerif.Props.C13Rename", "NmlVerif.Props.C13Geom", "NmlVerif.Props.C13LocFix"]
+              "NmlVerif.Props.C13Rename", "NmlVerif.Props.C13Geom"]
 LEVEL = "proof"
 RULE = ("cells built from a rooted tree shape (exhaustive stream: every unordered rooted tree shape with <= 6 "
         "segments; random stream: random recursive trees up to 200 segments, chains, stars, caterpillars) x an id "
@@ -58,7 +58,7 @@ ASSUMPTIONS = [
     "answers from out-of-date caches are documented API behaviour: compared with the model, not with the definition; "
     "an exception inside the loop of get_extremeties is modelled as leaving the object as it was at loop entry",
     "segment groups used for get_ordered_segments_in_groups list their members directly (group inclusion is C14)",
-    "get_segment_location_info is modelled without unbranched-section groups (they are C16)",
+    "get_segment_location_info (repaired: total on every tree) is modelled without unbranched-section groups (C16)",
 ]
 
 FRACS = [F(0), F(1, 4), F(1, 2), F(1)]
@@ -550,7 +550,23 @@ def oracle(case, real):
                           "get_segment_location_info raises", {"seg": i, "exc": real["exc"].get("loc")}))
         elif F(r[1]) != ref.to_prox(i) or F(r[0]) ** 2 != ref.length2(i):
             bad("location-info", "location info: length / distance from the root differ from the definition", {"seg": i, "got": r})
+        else:
+            top = stretch_top(ref, i)
+            if F(r[2]) != ref.to_prox(i) - ref.to_prox(top):
+                bad("location-info", "location info: distance from the nearest branching point is not the path length from "
+                    "the first segment of the unbranched stretch (the root when no branch point lies above)",
+                    {"seg": i, "got": r, "stretch_top": top, "expected": str(ref.to_prox(i) - ref.to_prox(top))})
     return fails
+
+
+def stretch_top(ref, i):
+    """first segment of the unbranched stretch containing i: walk up while the segment is an only child"""
+    cur = i
+    while True:
+        par = ref.parent(cur)
+        if par is None or len(ref.children(par[0])) != 1:
+            return cur
+        cur = par[0]
 
 
 def no_branching_ancestor(ref, i):
